@@ -172,20 +172,33 @@ Definition outcome_of (r : response) : outcome :=
     else OCommError
   end.
 
-(** an endpoint that cannot be reached counts as a source that does not exist
-    (any more): its rule set is unloaded until it answers again (DESIGN §6 C18) *)
-Definition obs_of_outcome (o : outcome) : sobs :=
+(** THE INTERPRETIVE CHOICE of this specification.  The statement says "endpoints
+    failing" is part of the histories and that the active rule sets converge to the
+    content "of the sources that still exist"; it does not say whether an endpoint
+    (or bucket) that cannot be reached right now still exists.  [gone = true]: it
+    counts as a source that does not exist (any more) — its rule set is unloaded
+    until it answers again; this is what heimdall implements (DESIGN §6 C18) and
+    what the provider theorems are stated for.  [gone = false]: the failed poll says
+    nothing and the loaded rule set is kept.  A 404 is "not found" under both. *)
+Definition obs_of_outcome_r (gone : bool) (o : outcome) : sobs :=
   match o with
   | OValid c => SNew c
-  | OEmpty | ONotFound | OCommError => SGone
+  | OEmpty | ONotFound => SGone
+  | OCommError => if gone then SGone else SNone
   | OInvalid => SBad
   | OAborted => SNone
   end.
+
+Definition obs_of_outcome (o : outcome) : sobs := obs_of_outcome_r true o.
+
+Definition http_view_r (gone : bool) (e : http_event) : list (sid * sobs) :=
+  [(Sid (fst e), obs_of_outcome_r gone (outcome_of (snd e)))].
 
 Definition http_view (e : http_event) : list (sid * sobs) :=
   [(Sid (fst e), obs_of_outcome (outcome_of (snd e)))].
 
 Definition http_views (h : list http_event) : list (list (sid * sobs)) := map http_view h.
+Definition http_views_r (gone : bool) (h : list http_event) : list (list (sid * sobs)) := map (http_view_r gone) h.
 
 (** ** Cloud blob (reading of a poll, from the property text) *)
 From HV Require Import C18.ModelBlob.
@@ -200,17 +213,20 @@ Fixpoint lookup_content (k : nat) (l : list (nat * content)) : option content :=
     content, a blob that is not listed does not exist (any more); a bucket that
     cannot be reached counts as gone (as for HTTP endpoints); other failures and
     aborted polls say nothing.  An endpoint whose URL names one blob looks at that blob. *)
-Definition blob_view (nk : nat) (e : blob_event) : list (sid * sobs) :=
+Definition blob_view_r (gone : bool) (nk : nat) (e : blob_event) : list (sid * sobs) :=
   let b := fst e in
   match snd e with
   | BList l => map (fun k => (bsid false b k,
                               match lookup_content k l with Some w => obs_of_content w | None => SGone end)) (seq 0 nk)
   | BSingle k w => [(bsid false b k, obs_of_content w)]
-  | BFail (BComm | BTimeout) => map (fun k => (bsid false b k, SGone)) (seq 0 nk)
+  | BFail (BComm | BTimeout) => if gone then map (fun k => (bsid false b k, SGone)) (seq 0 nk) else []
   | BFail _ => []
   end.
 
+Definition blob_view (nk : nat) (e : blob_event) : list (sid * sobs) := blob_view_r true nk e.
+
 Definition blob_views (nk : nat) (h : list blob_event) : list (list (sid * sobs)) := map (blob_view nk) h.
+Definition blob_views_r (gone : bool) (nk : nat) (h : list blob_event) : list (list (sid * sobs)) := map (blob_view_r gone nk) h.
 
 (** ** Kubernetes (reading of a watch event, from the property text) *)
 From HV Require Import C18.ModelK8s.
